@@ -10,6 +10,7 @@
      nul p / inv p / dquote p / squote p / bslash p        insert 0x00 / 0x80 / " / ' / \ at byte p
      blockc p   insert "/*" at byte p           closer p a insert the a-th kind of closing bracket
      nestopen p N   insert N opening brackets   nestpair p N   insert N openers and their N closers
+     cr p       insert 0x0D at byte p           crlfall    every LF of the file becomes CR LF (position 0 only)
 
    Byte positions are sampled on the lattice  p % Stride = Phase  plus both ends of the file (the
    engine derives Phase from VERIF_SEED; Stride = 1 is every position).                         *)
@@ -20,12 +21,13 @@ VARIABLE m
 vars == <<m>>
 
 TokOps  == {"deltok", "duptok", "swaptok"}
-ByteOps == {"trunc", "nul", "inv", "dquote", "squote", "bslash", "blockc", "closer", "nestopen", "nestpair"}
+ByteOps == {"trunc", "nul", "inv", "dquote", "squote", "bslash", "blockc", "closer", "nestopen", "nestpair", "cr", "crlfall"}
 
 NTok(f) == Len(FileTokLens[f])
 Positions(f, op) ==
   IF op \in TokOps
     THEN {p \in 1..NTok(f) : (op = "swaptok" => p < NTok(f)) /\ (p % Stride = Phase % Stride \/ p = 1 \/ p = NTok(f))}
+    ELSE IF op = "crlfall" THEN {0}
     ELSE {p \in 0..FileBytes[f] : p % Stride = Phase % Stride \/ p = 0 \/ p = FileBytes[f]}
 Args(op) == CASE op \in {"nestopen", "nestpair"} -> Depths
               [] op = "closer" -> 0..2
@@ -39,6 +41,7 @@ ExpectedLen(f, op, p, a) ==
     [] op = "blockc"   -> FileBytes[f] + 2
     [] op = "nestopen" -> FileBytes[f] + a
     [] op = "nestpair" -> FileBytes[f] + 2 * a
+    [] op = "crlfall"  -> FileBytes[f] + FileLFs[f]
     [] OTHER           -> FileBytes[f] + 1
 
 Init == m = [kind |-> "none"]
